@@ -9,24 +9,28 @@ from dsim.transport import EXC
 
 
 class Collab(object):
-    def __init__(self):
-        self.counts = {}
-        self.plan = None
+    """Call counter + *content-triggered* faults for caller-supplied collaborators.
+
+    A collaborator raises whenever it is handed the trigger value of its kind (type-strict
+    equality), for the whole run.  The trigger is a pure function of the collaborator's input,
+    not of a call count, so a library that legitimately memoises or re-orders collaborator calls
+    still sees the same behaviour - the oracle never depends on how often the library calls us.
+    """
+
+    def __init__(self, triggers=None):
+        self.triggers = dict(triggers or {})   # kind ("format"|"type"|"kw") -> {"value": v, "exc": name}
         self.fired = 0
         self.total_calls = 0
 
     def begin(self, plan=None):
-        self.counts = {}
-        self.plan = plan
+        pass
 
-    def hit(self, site):
-        c = self.counts.get(site, 0) + 1
-        self.counts[site] = c
+    def hit(self, site, instance=None):
         self.total_calls += 1
-        p = self.plan
-        if p and p["site"] == site and p["n"] == c:
+        t = self.triggers.get(site.split(":", 1)[0])
+        if t is not None and type(instance) is type(t["value"]) and instance == t["value"]:
             self.fired += 1
-            raise EXC[p["exc"]]("dsim collab fault %s#%d" % (site, c))
+            raise EXC[t["exc"]]("dsim collab fault at %s for %r" % (site, instance))
 
 
 # ---------------------------------------------------------------- formats
@@ -43,19 +47,19 @@ def make_format(name, variant, collab):
 
     if name == "sim-evenlen":
         def fn(instance):
-            collab.hit(site)
+            collab.hit(site, instance)
             if not isinstance(instance, str):
                 return True
             return len(instance) % 2 == variant % 2
     elif name == "sim-lower":
         def fn(instance):
-            collab.hit(site)
+            collab.hit(site, instance)
             if not isinstance(instance, str):
                 return True
             return (instance == instance.lower()) == (variant % 2 == 0)
     elif name == "sim-noz":
         def fn(instance):
-            collab.hit(site)
+            collab.hit(site, instance)
             if not isinstance(instance, str):
                 return True
             if ("z" in instance) == (variant % 2 == 0):
@@ -86,12 +90,12 @@ def make_type(name, variant, collab):
     site = "type:" + name
     if name == "even":
         def fn(checker, instance):
-            collab.hit(site)
+            collab.hit(site, instance)
             return (isinstance(instance, int) and not isinstance(instance, bool)
                     and instance % 2 == variant % 2)
     elif name == "nonempty":
         def fn(checker, instance):
-            collab.hit(site)
+            collab.hit(site, instance)
             return isinstance(instance, (str, list, dict)) and (len(instance) > 0) == (variant % 2 == 0)
     else:
         raise KeyError(name)
@@ -108,13 +112,13 @@ def make_keyword(name, variant, collab):
 
     if name == "x-marker":
         def kw(validator, value, instance, schema):
-            collab.hit(site)
+            collab.hit(site, instance)
             tn = type(instance).__name__
             if (tn == value) == (variant % 2 == 0):
                 yield ValidationError("x-marker(%d): %r has python type %s" % (variant, instance, tn))
     elif name == "x-each":
         def kw(validator, value, instance, schema):
-            collab.hit(site)
+            collab.hit(site, instance)
             if isinstance(instance, list):
                 for i, item in enumerate(instance):
                     for e in validator.descend(item, value, path=i):
@@ -125,7 +129,7 @@ def make_keyword(name, variant, collab):
                         yield e
     elif name == "x-also":
         def kw(validator, value, instance, schema):
-            collab.hit(site)
+            collab.hit(site, instance)
             for e in validator.descend(instance, value, schema_path="x-also"):
                 yield e
     else:
